@@ -12,6 +12,8 @@ Tr == ndJsonDeserialize(IOEnv.TRACE_FILE)
 JudgeEvent(e) ==
   CASE e.kind = "limit_fanin"  -> Judge_limit_fanin(e)
     [] e.kind = "limit_fanout" -> Judge_limit_fanout(e)
+    [] e.kind = "insert_registers" -> Judge_insert_registers(e)
+    [] e.kind = "acyclic_unroll_acyclic" -> Judge_acyclic_unroll_acyclic(e)
     [] e.kind = "cnf"          -> Judge_cnf(e)
     [] e.kind = "solve"        -> Judge_solve(e)
     [] e.kind = "model_count"  -> Judge_model_count(e)
